@@ -11,7 +11,9 @@ ASSUMPTIONS = [
 ]
 EXPLANATION = ("Theorems in coq/Props/C01.v are about every interleaving of the modelled atomic steps, for every input, worker count and "
                "buffer size. Each run of the check executes the REAL Split / ProcessParallel / ParallelForEach / Worker / Map / ParallelBuffer / "
-               "Buffer / MergeIterators / GenerateParallel / concurrent ReadOne on seeded inputs with Gosched/sleep jitter and varied GOMAXPROCS, "
+               "Buffer / MergeIterators / GenerateParallel (generator ending with io.EOF / an error wrapping io.EOF / a real error = aborted run; free "
+               "schedule and a driver-controlled schedule in which the call producing the last value returns only after another worker's call "
+               "reported the end) / concurrent ReadOne on seeded inputs with Gosched/sleep jitter and varied GOMAXPROCS, "
                "applies the multiset (and order) oracle, and hands every observed outcome to Coq, where it must be an outcome the model allows "
                "(a permutation of the input; the input itself for Buffer / one worker) and where the model network of the same construct is "
                "executed on the same input.")
@@ -22,7 +24,12 @@ LEVEL_TEXT = ("Machine-checked Coq theorems over GoLite networks of the parallel
               "after the wait group drained and every worker returned (or the iterator's context was cancelled); C01_order_single / "
               "C01_complete_single_pump - Buffer (and Chain, MergeSlices, MergeSliceIterators, dt.Map, adt.Map) deliver the input list itself, "
               "never drop; C01_complete_partial - every construct: with empty hands, delivered + still-in-input + still-buffered + explicitly "
-              "dropped is a permutation of the input (nothing duplicated or invented, ever).")
+              "dropped is a permutation of the input (nothing duplicated or invented, ever); C01_drop_only_by_a_send_that_gives_up - in any network "
+              "passing the static check hand_disc the only step that drops an item is a send whose context is cancelled or whose channel is closed; "
+              "C01_generate_eof_no_drop / C01_generate_eof_cancels_nothing - GenerateParallel (worker = explicit ctx.Err() test, generator call, send; "
+              "any workers, input, schedule) whose generator ends with the end-of-stream signal (io.EOF, bare or wrapped) cancels nothing while a "
+              "worker is running and never drops an item in an un-aborted run; C01_generate_failure_drops_in_flight - the contrast: treating the "
+              "end as a failure (cancel-on-failure edge) drops a value that is generated and not yet sent.")
 LEVEL_NOTE = ("Partial in DESIGN's sense: channel hand-off atomicity, WaitGroup, context and goroutine exit are model primitives. "
               "C01_complete (un-aborted terminated run delivers a permutation) is proved in full for the single-pump constructs and stated "
               "(C01_complete_statement) for the multi-worker ones, where it is reduced to 'no explicit drop happened' (C01_complete_partial) and "
